@@ -277,8 +277,15 @@ def check_symbols(run, lst, ob):
     ectx = edit_context(case)
     labels = lst.label_positions()
     orig_extern = set(case.get("externs", []))
-    # neighbours deleted with proxy (don't-care 5)
+    # neighbours deleted with proxy (don't-care 5); a zero-sized block of a
+    # function removed with delete_function is among them
     proxy_blocks = set(lst.proxy_deleted)
+    for e in case["edits"]:
+        if e.get("op") == "delfn":
+            for bid in next(f["blocks"] for f in case["funcs"]
+                            if f["name"] == e["f"]):
+                if not lst.block_info[bid]["blk"]["items"]:
+                    proxy_blocks.add(bid)
     order = {}   # bid -> (sec, index in section order)
     for si, sec in enumerate(case["secs"]):
         k = 0
@@ -349,11 +356,12 @@ def check_symbols(run, lst, ob):
             nxt = None
             for t in seq[idx + 1:]:
                 if t.t == "B":
-                    if t.bid in lst.deleted_blocks and \
-                            t.bid not in proxy_blocks:
+                    if t.bid in proxy_blocks:
+                        nxt = t.bid
+                        break
+                    if t.bid in lst.deleted_blocks:
                         continue
-                    if t.bid not in lst.deleted_blocks and \
-                            not lst.block_info[t.bid]["blk"]["items"]:
+                    if not lst.block_info[t.bid]["blk"]["items"]:
                         continue    # zero-sized input block: transparent
                     nxt = t.bid
                     break
